@@ -675,7 +675,7 @@ def _gen_chain(rng):
 def _gen_none(rng):
     """missing attributes: None in keys (TypeError from np.allclose / sorted when mixed with values)"""
     s = _series(rng, 2)
-    pat = rng.choice(['all-noprot', 'mixed-prot', 'mixed-iop', 'other-uid-noprot', 'all-noiop', 'mixed-num', 'short-iop', 'one-iop'])
+    pat = rng.choice(['all-noprot', 'mixed-prot', 'mixed-iop', 'other-uid-noprot', 'all-noiop', 'mixed-num', 'short-iop'])
     files = []
 
     def add(sd, **over):
@@ -704,13 +704,11 @@ def _gen_none(rng):
         add(s[0])
         add(t, prot=None)
         add(s[0])
-    elif pat == 'short-iop':
+    elif pat == 'short-iop':      # a single-valued DS would be a bare float (outside the model domain): lengths >= 2 only
         add(s[0], iop=['1', '0', '0', '0', '1', '0'])
-        add(s[0], iop=rng.choice([['1', '0', '0'], ['1'], ['1', '0']]))
+        add(s[0], iop=rng.choice([['1', '0', '0'], ['1', '0'], ['1', '0', '0', '0', '1', '0', '0']]))
     else:
-        add(s[0], iop=['1', '1', '1', '1', '1', '1'])
-        add(s[0], iop=['1'])
-        add(s[0], iop=['1.00002', '1', '1', '1', '1', '1'])
+        raise ValueError(pat)
     imgs = [f['id'] for f in files]
     lists = []
     for _ in range(3):
